@@ -253,3 +253,714 @@ Proof.
     eapply H0; eauto.
   - destruct H as [H | H]. discriminate. eapply IH; eauto.
 Qed.
+
+(* ================================================================== C. tables and matrices *)
+
+Definition dense (M : matrix) (r c : nat) : Prop := length M = r /\ Forall (fun row => length row = c) M.
+Definition assignment (r c : nat) (a : list (nat * nat)) : Prop :=
+  NoDup (map fst a) /\ NoDup (map snd a) /\ Forall (fun p => (fst p < r)%nat /\ (snd p < c)%nat) a.
+Definition float_safe (M : matrix) : Prop := 4 * msum_abs M <= 2 ^ 53.
+
+(* the contract of scipy.optimize.linear_sum_assignment: on a dense matrix on which float64 arithmetic is
+   exact it returns min(r, c) pairs forming an injective partial assignment of minimum total *)
+Definition optimal_full (solve : matrix -> list (nat * nat)) : Prop :=
+  forall M r c, dense M r c -> float_safe M ->
+    assignment r c (solve M) /\ length (solve M) = Nat.min r c /\
+    forall a', assignment r c a' -> length a' = Nat.min r c -> mtotal M (solve M) <= mtotal M a'.
+
+Lemma float_safeb_iff : forall M, float_safeb M = true <-> float_safe M.
+Proof. intros. unfold float_safeb, float_safe. apply Z.leb_le. Qed.
+
+Lemma nth_cells : forall (W : table) i j row c,
+  nth_error W i = Some row -> nth_error row j = Some c -> In c (cells W).
+Proof.
+  intros. unfold cells. apply in_concat. exists row. split; eapply nth_error_In; eauto.
+Qed.
+
+Lemma lookup_cells : forall W i j w, lookup W i j = Some w -> In (Some w) (cells W).
+Proof.
+  unfold lookup. intros W i j w H.
+  destruct (nth_error W i) as [row|] eqn:E1; [|discriminate].
+  destruct (nth_error row j) as [c|] eqn:E2; [|discriminate]. subst c. eapply nth_cells; eauto.
+Qed.
+
+Lemma rectb_spec : forall W, rectb W = true -> forall row, In row W -> length row = ncols W.
+Proof.
+  unfold rectb. intros W H row Hin. rewrite forallb_forall in H. apply Nat.eqb_eq. auto.
+Qed.
+
+Lemma lookup_range : forall W i j w, rectb W = true -> lookup W i j = Some w ->
+  (i < nrows W)%nat /\ (j < ncols W)%nat.
+Proof.
+  unfold lookup. intros W i j w Hr H.
+  destruct (nth_error W i) as [row|] eqn:E1; [|discriminate].
+  destruct (nth_error row j) as [c|] eqn:E2; [|discriminate].
+  split. apply nth_error_Some. congruence.
+  rewrite <- (rectb_spec W Hr row) by (eapply nth_error_In; eauto). apply nth_error_Some. congruence.
+Qed.
+
+Lemma fill_dense : forall s W, rectb W = true -> dense (fill s W) (nrows W) (ncols W).
+Proof.
+  intros s W H. split. unfold fill. apply map_length.
+  unfold fill. apply Forall_forall. intros row Hin. apply in_map_iff in Hin.
+  destruct Hin as [row0 [E Hin]]. subst row. rewrite map_length. apply rectb_spec; auto.
+Qed.
+
+Definition rsum (row : list Z) : Z := fold_right (fun x a => Z.abs x + a) 0 row.
+Lemma msum_abs_cons : forall row M, msum_abs (row :: M) = rsum row + msum_abs M.
+Proof. reflexivity. Qed.
+Lemma rsum_nonneg : forall row, 0 <= rsum row.
+Proof. induction row; simpl; lia. Qed.
+Lemma msum_abs_nonneg : forall M, 0 <= msum_abs M.
+Proof. induction M as [|row M IH]. simpl; lia. rewrite msum_abs_cons. pose proof (rsum_nonneg row). lia. Qed.
+Lemma rsum_in : forall row x, In x row -> Z.abs x <= rsum row.
+Proof.
+  induction row as [|y row IH]; intros x H. destruct H.
+  simpl. pose proof (rsum_nonneg row). destruct H as [H | H]. subst; lia. apply IH in H. lia.
+Qed.
+Lemma msum_abs_in : forall M row x, In row M -> In x row -> Z.abs x <= msum_abs M.
+Proof.
+  induction M as [|r M IH]; intros row x H Hx. destruct H.
+  rewrite msum_abs_cons. pose proof (rsum_nonneg r). pose proof (msum_abs_nonneg M).
+  destruct H as [H | H]. subst r. apply rsum_in in Hx. lia. specialize (IH _ _ H Hx). lia.
+Qed.
+
+Lemma fill_present : forall s W w, In (Some w) (cells W) -> exists row, In row (fill s W) /\ In (wnum w) row.
+Proof.
+  intros s W w H. unfold cells in H. apply in_concat in H. destruct H as [row [Hr Hc]].
+  exists (map (fun c => match c with Some w => wnum w | None => s end) row). split.
+  unfold fill. apply in_map. auto.
+  apply in_map_iff. exists (Some w). split; auto.
+Qed.
+Lemma fill_missing : forall s W, In None (cells W) -> exists row, In row (fill s W) /\ In s row.
+Proof.
+  intros s W H. unfold cells in H. apply in_concat in H. destruct H as [row [Hr Hc]].
+  exists (map (fun c => match c with Some w => wnum w | None => s end) row). split.
+  unfold fill. apply in_map. auto.
+  apply in_map_iff. exists None. split; auto.
+Qed.
+Lemma fill_entries : forall s W row x, In row (fill s W) -> In x row ->
+  x = s /\ In None (cells W) \/ exists w, In (Some w) (cells W) /\ x = wnum w.
+Proof.
+  intros s W row x Hr Hx. unfold fill in Hr. apply in_map_iff in Hr. destruct Hr as [row0 [E Hr]]. subst row.
+  apply in_map_iff in Hx. destruct Hx as [c [E Hc]].
+  assert (In c (cells W)) by (unfold cells; apply in_concat; eauto).
+  destruct c as [w|]. right. exists w. auto. left. auto.
+Qed.
+
+Lemma fill_complete : forall s s' W, ~ In None (cells W) -> fill s W = fill s' W.
+Proof.
+  intros s s' W H. unfold fill. apply map_ext_in. intros row Hr. apply map_ext_in. intros c Hc.
+  destruct c; auto. exfalso. apply H. unfold cells. apply in_concat. eauto.
+Qed.
+
+Lemma rsum_cast_bool : forall row, rsum (map (fun x => if x =? 0 then 0 else 1) row) <= rsum row.
+Proof.
+  induction row as [|x row IH]; simpl. lia. destruct (Z.eqb_spec x 0); lia.
+Qed.
+
+Lemma cast_matrix_props : forall dt M M', cast_matrix dt M = Some M' ->
+  msum_abs M' <= msum_abs M /\ (forall r c, dense M r c -> dense M' r c).
+Proof.
+  intros dt M M' H. destruct dt; simpl in H.
+  - inversion H; subst M'. clear H. split.
+    + induction M as [|row M IH]. simpl. lia. simpl map. rewrite !msum_abs_cons.
+      pose proof (rsum_cast_bool row). lia.
+    + intros r c [H1 H2]. split. rewrite map_length; auto.
+      apply Forall_forall. intros row Hin. apply in_map_iff in Hin. destruct Hin as [row0 [E Hin]]. subst row.
+      rewrite map_length. rewrite Forall_forall in H2. auto.
+  - inversion H; subst. split. lia. auto.
+  - destruct (forallb (forallb (fitsb d)) M); inversion H; subst. split. lia. auto.
+Qed.
+
+Lemma cast_bool_id : forall W s, ~ In None (cells W) -> (forall w, In (Some w) (cells W) -> wty w = TBool) ->
+  map (map (fun x => if x =? 0 then 0 else 1)) (fill s W) = fill s W.
+Proof.
+  intros W s Hn Hb. unfold fill. rewrite map_map. apply map_ext_in. intros row Hr.
+  rewrite map_map. apply map_ext_in. intros c Hc.
+  assert (In c (cells W)) by (unfold cells; apply in_concat; eauto).
+  destruct c as [w|]. specialize (Hb _ H). destruct w as [[|]| |]; simpl in *; try discriminate; reflexivity.
+  contradiction.
+Qed.
+
+(* ================================================================== D. everything before the solver *)
+
+Lemma present_of_max : forall W me, max_edge W = Some me -> exists w, In (Some w) (cells W) /\ wnum w = me.
+Proof. unfold max_edge. intros W me H. apply max_from_in in H. destruct H as [H | H]. discriminate. auto. Qed.
+Lemma present_of_min : forall W lo, min_edge W = Some lo -> exists w, In (Some w) (cells W) /\ wnum w = lo.
+Proof. unfold min_edge. intros W me H. apply min_from_in in H. destruct H as [H | H]. discriminate. auto. Qed.
+
+Lemma edge_ty_some : forall W w, mixedb W = false -> In (Some w) (cells W) ->
+  exists t, edge_ty W = Some t /\ forall w', In (Some w') (cells W) -> wty w' = t.
+Proof.
+  unfold mixedb, edge_ty. intros W w Hm Hin. destruct (ty_from None (cells W)) as [o|] eqn:E; [|discriminate].
+  destruct o as [t|].
+  - exists t. split; auto. apply ty_from_all in E. tauto.
+  - apply ty_from_none in E. destruct E as [_ E]. exfalso. eapply E; eauto.
+Qed.
+Lemma edge_ty_none : forall W, mixedb W = false -> edge_ty W = None -> forall w, ~ In (Some w) (cells W).
+Proof.
+  unfold mixedb, edge_ty. intros W Hm He. destruct (ty_from None (cells W)) as [o|] eqn:E; [|discriminate].
+  subst o. apply ty_from_none in E. tauto.
+Qed.
+
+Lemma ncols_pos : forall W c, rectb W = true -> In c (cells W) -> (0 < ncols W)%nat.
+Proof.
+  intros W c Hr Hc. unfold cells in Hc. apply in_concat in Hc. destruct Hc as [row [H1 H2]].
+  rewrite <- (rectb_spec W Hr row H1). destruct row. destruct H2. simpl. lia.
+Qed.
+Lemma zmax_col_sums : forall W, (0 < ncols W)%nat -> exists mx, zmax_list (col_sums W) = Some mx.
+Proof.
+  intros W H. unfold col_sums. destruct (ncols W) as [|n]. lia. simpl. eauto.
+Qed.
+
+Lemma pow2_53 : 2 ^ 53 = 9007199254740992. Proof. reflexivity. Qed.
+Lemma pow2_63 : 2 ^ 63 = 9223372036854775808. Proof. reflexivity. Qed.
+Lemma pow2_64 : 2 ^ 64 = 18446744073709551616. Proof. reflexivity. Qed.
+
+(* on a float64-exact matrix the generated get_dtype yields a dtype that holds every entry: no OverflowError *)
+Lemma int_cast_fits : forall W s lo hi,
+  float_safe (fill s W) -> min_edge W = Some lo ->
+  (forall w, In (Some w) (cells W) -> lo <= wnum w <= hi) ->
+  (In None (cells W) -> lo <= s <= hi) ->
+  (exists row, In row (fill s W) /\ In hi row) ->
+  forallb (forallb (fitsb (get_dtype lo hi))) (fill s W) = true.
+Proof.
+  intros W s lo hi Hsafe Hmin Hpres Hmiss Hhi.
+  destruct (present_of_min _ _ Hmin) as [w0 [Hw0 Elo]].
+  destruct (fill_present s W w0 Hw0) as [row0 [Hr0 Hx0]]. rewrite Elo in Hx0.
+  pose proof (msum_abs_in _ _ _ Hr0 Hx0) as Blo.
+  destruct Hhi as [row1 [Hr1 Hx1]]. pose proof (msum_abs_in _ _ _ Hr1 Hx1) as Bhi.
+  unfold float_safe in Hsafe. rewrite pow2_53 in Hsafe.
+  assert (Hle : lo <= hi) by (specialize (Hpres _ Hw0); lia).
+  assert (Hok : int_range_okb lo hi = true).
+  { unfold int_range_okb. apply orb_true_iff. right. apply andb_true_iff. rewrite pow2_63. split.
+    apply Z.leb_le. lia. apply Z.ltb_lt. lia. }
+  destruct (get_dtype_fits lo hi Hle (int_range_in_table _ _ Hok)) as [F1 F2].
+  apply forallb_forall. intros row Hr. apply forallb_forall. intros x Hx.
+  apply (fitsb_between _ lo hi); auto.
+  destruct (fill_entries _ _ _ _ Hr Hx) as [[E Hn] | [w [Hw E]]]; subst x; auto.
+Qed.
+
+Lemma prepare_in_domain : forall u W, in_domainb u W = true ->
+  (edge_ty W = None /\ has_null W = false /\ prepare u W = PEmpty) \/
+  (exists s M, prepare u W = PSolve (has_null W) s M /\ dense M (nrows W) (ncols W) /\ float_safe M /\
+               (has_null W = false -> M = fill 0 W)).
+Proof.
+  intros u W H. unfold in_domainb in H.
+  repeat (apply andb_true_iff in H; let H' := fresh "D" in destruct H as [H H']).
+  rename H into Hrect. apply negb_true_iff in D, D0, D1, D2, D3.
+  rename D3 into Hmix, D2 into Ham, D1 into Hneg, D0 into Hso, D into Hb.
+  unfold prepare. rewrite scan_spec, Hmix. cbn [s_ty s_max s_min s_null].
+  unfold kf_beyond_2p53 in Hb. apply negb_false_iff in Hb. apply float_safeb_iff in Hb.
+  destruct (has_null W) eqn:Hn.
+  - (* some pair is missing *)
+    right. unfold has_null in Hn. pose proof (has_null_cells_true _ Hn) as HNone.
+    unfold kf_all_missing in Ham. unfold has_null in Ham. rewrite Hn in Ham. simpl in Ham.
+    apply negb_false_iff in Ham. destruct (max_edge W) as [me|] eqn:Eme; [|discriminate]. clear Ham.
+    destruct (zmax_col_sums W (ncols_pos _ _ Hrect HNone)) as [mx Emx]. rewrite Emx.
+    unfold kf_negative_with_missing in Hneg. unfold has_null in Hneg. rewrite Hn, Eme in Hneg. simpl in Hneg.
+    unfold filled in Hb. unfold sentinel in Hneg, Hb. rewrite Emx in Hneg, Hb. unfold one_of in Hneg, Hb.
+    destruct (present_of_max _ _ Eme) as [wm [Hwm Ewm]].
+    destruct (edge_ty_some _ _ Hmix Hwm) as [t [Et Hall]]. rewrite Et in *.
+    set (nev := mx + match t with TFloat => u | _ => 1 end) in *.
+    apply Z.leb_gt in Hneg.
+    replace (nev >? me) with true by (symmetry; rewrite Z.gtb_ltb; apply Z.ltb_lt; lia).
+    assert (Hd : dense (fill nev W) (nrows W) (ncols W)) by (apply fill_dense; auto).
+    destruct (min_from_some (cells W) None wm Hwm) as [lo Elo]. fold (min_edge W) in Elo.
+    assert (Hcast : exists M, cast_matrix match t with TBool => DBool | TInt => DInt (get_dtype (oz (min_edge W)) (oz (Some nev))) | TFloat => DFloat end (fill nev W) = Some M).
+    { destruct t; simpl; eauto.
+      rewrite Elo. simpl. rewrite int_cast_fits; eauto.
+      - intros w Hw. unfold min_edge in Elo. apply min_from_le in Elo. destruct Elo as [_ L].
+        unfold max_edge in Eme. apply max_from_ge in Eme. destruct Eme as [_ G].
+        specialize (L _ Hw). specialize (G _ Hw). lia.
+      - intros _. unfold min_edge in Elo. apply min_from_le in Elo. destruct Elo as [_ L].
+        specialize (L _ Hwm). lia.
+      - apply fill_missing. auto. }
+    destruct Hcast as [M EM]. rewrite EM. exists nev, M.
+    destruct (cast_matrix_props _ _ _ EM) as [P1 P2].
+    split; [reflexivity|]. split; [auto|]. split; [unfold float_safe in *; lia|]. discriminate.
+  - (* no pair is missing *)
+    unfold has_null in Hn. pose proof (has_null_cells_false _ Hn) as HNone.
+    unfold filled in Hb. rewrite (fill_complete _ 0 W HNone) in Hb.
+    destruct (edge_ty W) as [t|] eqn:Et.
+    + right.
+      assert (Hd : dense (fill 0 W) (nrows W) (ncols W)) by (apply fill_dense; auto).
+      assert (Hpres : exists w, In (Some w) (cells W)).
+      { unfold edge_ty in Et. destruct (ty_from None (cells W)) as [o|] eqn:E; [|discriminate]. subst o.
+        destruct (cells W) as [|c r] eqn:Ec. simpl in E. discriminate.
+        destruct c as [w|]. exists w. left; auto. exfalso. apply HNone. left; auto. }
+      destruct Hpres as [w0 Hw0].
+      destruct (edge_ty_some _ _ Hmix Hw0) as [t' [Et' Hall]]. rewrite Et in Et'. inversion Et'; subst t'.
+      destruct (min_from_some (cells W) None w0 Hw0) as [lo Elo]. fold (min_edge W) in Elo.
+      destruct (max_from_some (cells W) None w0 Hw0) as [me Eme]. fold (max_edge W) in Eme.
+      assert (Hcast : cast_matrix match t with TBool => DBool | TInt => DInt (get_dtype (oz (min_edge W)) (oz (max_edge W))) | TFloat => DFloat end (fill 0 W) = Some (fill 0 W)).
+      { destruct t; simpl; auto.
+        - rewrite cast_bool_id; auto.
+        - rewrite Elo, Eme. simpl. rewrite int_cast_fits; eauto.
+          + intros w Hw. unfold min_edge in Elo. apply min_from_le in Elo. destruct Elo as [_ L].
+            unfold max_edge in Eme. apply max_from_ge in Eme. destruct Eme as [_ G].
+            specialize (L _ Hw). specialize (G _ Hw). lia.
+          + intros Hc. contradiction.
+          + destruct (present_of_max _ _ Eme) as [wm [Hwm Ewm]]. rewrite <- Ewm. apply fill_present. auto. }
+      rewrite Hcast. exists 0, (fill 0 W). auto.
+    + left. auto.
+Qed.
+
+(* ================================================================== E. the final filter *)
+
+Lemma report_sound : forall W hn s a m, report W hn s a = Some m ->
+  Forall (fun p => lookup W (fst p) (fst (snd p)) = Some (snd (snd p))) m /\
+  (forall i, In i (m_rows m) -> In i (map fst a)) /\
+  (forall j, In j (m_cols m) -> In j (map snd a)).
+Proof.
+  induction a as [|[i j] r IH]; intros m H; simpl in H.
+  - inversion H. simpl. repeat split; auto.
+  - destruct (nth_error W i) as [row|] eqn:E1; [|discriminate].
+    destruct (nth_error row j) as [cell|] eqn:E2; [|discriminate].
+    destruct (report W hn s r) as [m0|] eqn:E3; [|discriminate].
+    destruct (IH m0 eq_refl) as [I1 [I2 I3]].
+    assert (Hbase : Forall (fun p => lookup W (fst p) (fst (snd p)) = Some (snd (snd p))) m0 /\
+                    (forall i0, In i0 (m_rows m0) -> In i0 (map fst ((i, j) :: r))) /\
+                    (forall j0, In j0 (m_cols m0) -> In j0 (map snd ((i, j) :: r)))).
+    { repeat split; auto; intros; simpl; right; auto. }
+    destruct cell as [w|].
+    + destruct (negb hn || (wnum w <? s)); inversion H; subst m; auto.
+      split; [|split].
+      * constructor; auto. simpl. unfold lookup. rewrite E1, E2. reflexivity.
+      * intros i0 [Hi | Hi]; simpl; auto.
+      * intros j0 [Hj | Hj]; simpl; auto.
+    + inversion H; subst m; auto.
+Qed.
+
+Lemma report_nodup : forall W hn s a m, report W hn s a = Some m ->
+  NoDup (map fst a) -> NoDup (map snd a) -> NoDup (m_rows m) /\ NoDup (m_cols m).
+Proof.
+  induction a as [|[i j] r IH]; intros m H N1 N2; simpl in H.
+  - inversion H. simpl. split; constructor.
+  - destruct (nth_error W i) as [row|] eqn:E1; [|discriminate].
+    destruct (nth_error row j) as [cell|] eqn:E2; [|discriminate].
+    destruct (report W hn s r) as [m0|] eqn:E3; [|discriminate].
+    simpl in N1, N2. inversion N1; subst. inversion N2; subst.
+    destruct (IH m0 eq_refl H3 H5) as [I1 I2].
+    destruct (report_sound _ _ _ _ _ E3) as [_ [S1 S2]].
+    destruct cell as [w|].
+    + destruct (negb hn || (wnum w <? s)); inversion H; subst m; auto.
+      split; simpl; constructor; auto.
+    + inversion H; subst m; auto.
+Qed.
+
+Lemma report_total : forall W hn s a, rectb W = true ->
+  Forall (fun p => (fst p < nrows W)%nat /\ (snd p < ncols W)%nat) a -> exists m, report W hn s a = Some m.
+Proof.
+  induction a as [|[i j] r IH]; intros Hr Ha; simpl. eauto.
+  inversion Ha; subst. simpl in H1. destruct H1 as [Hi Hj].
+  destruct (nth_error W i) as [row|] eqn:E1; [|apply nth_error_None in E1; unfold nrows in Hi; lia].
+  assert (length row = ncols W) by (apply rectb_spec; auto; eapply nth_error_In; eauto).
+  destruct (nth_error row j) as [cell|] eqn:E2; [|apply nth_error_None in E2; lia].
+  destruct (IH Hr H2) as [m0 E]. rewrite E. destruct cell; eauto.
+Qed.
+
+Lemma mget_fill : forall W s i j w, lookup W i j = Some w -> mget (fill s W) i j = wnum w.
+Proof.
+  unfold lookup, mget, fill. intros W s i j w H.
+  destruct (nth_error W i) as [row|] eqn:E1; [|discriminate].
+  destruct (nth_error row j) as [c|] eqn:E2; [|discriminate]. subst c.
+  rewrite (nth_error_nth _ _ _ (map_nth_error _ _ _ E1)).
+  rewrite (nth_error_nth _ _ _ (map_nth_error _ _ _ E2)). reflexivity.
+Qed.
+
+(* on a complete table nothing is filtered: the dict is the solver's answer with the table's weights *)
+Lemma report_complete : forall W s s' a m, ~ In None (cells W) -> report W false s a = Some m ->
+  length m = length a /\ total m = mtotal (fill s' W) a.
+Proof.
+  induction a as [|[i j] r IH]; intros m Hn H; simpl in H.
+  - inversion H. auto.
+  - destruct (nth_error W i) as [row|] eqn:E1; [|discriminate].
+    destruct (nth_error row j) as [cell|] eqn:E2; [|discriminate].
+    destruct (report W false s r) as [m0|] eqn:E3; [|discriminate].
+    destruct (IH m0 Hn eq_refl) as [I1 I2].
+    destruct cell as [w|].
+    + simpl in H. inversion H; subst m. simpl. split. lia.
+      rewrite I2. f_equal. symmetry. apply mget_fill. unfold lookup. rewrite E1, E2. reflexivity.
+    + exfalso. apply Hn. eapply nth_cells; eauto.
+Qed.
+
+(* a valid pairing read as an assignment on the filled matrix *)
+Definition pairs_of (m : matching) : list (nat * nat) := map (fun p => (fst p, fst (snd p))) m.
+Lemma pairs_of_assignment : forall W m, rectb W = true -> valid W m -> assignment (nrows W) (ncols W) (pairs_of m).
+Proof.
+  intros W m Hr [V1 [V2 V3]]. unfold assignment, pairs_of. rewrite !map_map. simpl.
+  split; [exact V1|]. split; [exact V2|].
+  apply Forall_forall. intros p Hp. apply in_map_iff in Hp. destruct Hp as [q [E Hq]]. subst p. simpl.
+  rewrite Forall_forall in V3. eapply lookup_range; eauto.
+Qed.
+Lemma pairs_of_total : forall W s m, valid W m -> mtotal (fill s W) (pairs_of m) = total m.
+Proof.
+  intros W s m [_ [_ V3]]. induction m as [|p m IH]. reflexivity.
+  inversion V3; subst. simpl. rewrite IH; auto. f_equal. apply mget_fill. auto.
+Qed.
+
+(* ================================================================== F. the main theorems *)
+
+Definition in_domain (u : Z) (W : table) : Prop := in_domainb u W = true.
+Definition complete (W : table) : Prop := has_null W = false.
+
+Section WithSolver.
+  Variable solve : matrix -> list (nat * nat).
+  Hypothesis solve_contract : optimal_full solve.
+
+  (* on the domain the routine returns a pairing (no exception) *)
+  Theorem C15_total : forall u W, in_domain u W -> exists m, mwbm solve u W = OK m.
+  Proof.
+    intros u W Hd. pose proof Hd as Hd'. unfold in_domain, in_domainb in Hd'.
+    assert (Hrect : rectb W = true).
+    { repeat (apply andb_true_iff in Hd'; destruct Hd' as [Hd' _]). exact Hd'. }
+    unfold mwbm. destruct (prepare_in_domain u W Hd) as [[_ [_ E]] | [s [M [E [HD [HS _]]]]]]; rewrite E.
+    - eauto.
+    - destruct (solve_contract M _ _ HD HS) as [[_ [_ A]] _].
+      destruct (report_total W (has_null W) s (solve M) Hrect A) as [m Em]. rewrite Em. eauto.
+  Qed.
+
+  (* the returned pairing is one-to-one, uses only existing pairs, reports their true weights *)
+  Theorem C15_valid : forall u W m, in_domain u W -> mwbm solve u W = OK m -> valid W m.
+  Proof.
+    intros u W m Hd H. unfold mwbm in H.
+    destruct (prepare_in_domain u W Hd) as [[_ [_ E]] | [s [M [E [HD [HS _]]]]]]; rewrite E in H.
+    - inversion H. repeat split; constructor.
+    - destruct (report W (has_null W) s (solve M)) as [m0|] eqn:Er; inversion H; subst m0.
+      destruct (solve_contract M _ _ HD HS) as [[A1 [A2 _]] _].
+      destruct (report_nodup _ _ _ _ _ Er A1 A2) as [N1 N2].
+      destruct (report_sound _ _ _ _ _ Er) as [S _]. repeat split; auto.
+  Qed.
+
+  (* with no missing pair: as many pairs as possible, and no pairing of that size is lighter *)
+  Theorem C15_opt : forall u W m, in_domain u W -> complete W -> mwbm solve u W = OK m ->
+    length m = Nat.min (nrows W) (ncols W) /\
+    forall m', valid W m' -> length m' = length m -> total m <= total m'.
+  Proof.
+    intros u W m Hd Hc H. pose proof Hd as Hd'. unfold in_domain, in_domainb in Hd'.
+    assert (Hrect : rectb W = true).
+    { repeat (apply andb_true_iff in Hd'; destruct Hd' as [Hd' _]). exact Hd'. }
+    assert (Hmix : mixedb W = false).
+    { repeat (apply andb_true_iff in Hd'; destruct Hd' as [Hd' ?]). apply negb_true_iff. assumption. }
+    unfold complete in Hc. pose proof (has_null_cells_false _ Hc) as HNone.
+    unfold mwbm in H.
+    destruct (prepare_in_domain u W Hd) as [[Et [_ E]] | [s [M [E [HD [HS HM]]]]]]; rewrite E in H.
+    - inversion H; subst m. simpl.
+      assert (Hcells : cells W = []).
+      { destruct (cells W) as [|c r] eqn:Ec; auto. exfalso. destruct c as [w|].
+        eapply (edge_ty_none W Hmix Et w). rewrite Ec. left; auto. apply HNone. left; auto. }
+      split.
+      + destruct W as [|row W']. reflexivity. unfold cells in Hcells. simpl in Hcells.
+        apply app_eq_nil in Hcells. destruct Hcells as [Hrow _]. subst row. simpl. lia.
+      + intros m' _ Hl. destruct m'; [simpl; lia | discriminate].
+    - rewrite Hc in H. specialize (HM Hc). subst M.
+      destruct (report W false s (solve (fill 0 W))) as [m0|] eqn:Er; inversion H; subst m0.
+      destruct (report_complete W s 0 _ _ HNone Er) as [L T].
+      destruct (solve_contract _ _ _ HD HS) as [_ [Hlen Hopt]].
+      split. lia.
+      intros m' Hv Hl. rewrite T. rewrite <- (pairs_of_total W 0 m' Hv).
+      apply Hopt. apply pairs_of_assignment; auto. unfold pairs_of. rewrite map_length. lia.
+  Qed.
+End WithSolver.
+
+(* weights of different Python types: the documented ValueError, whatever the solver *)
+Theorem C15_mixed : forall solve u W, mixedb W = true -> mwbm solve u W = Err ValueError.
+Proof. intros. unfold mwbm, prepare. rewrite scan_spec, H. reflexivity. Qed.
+
+(* ================================================================== G. the brute-force optimum *)
+
+Lemma mtotal_app : forall M a b, mtotal M (a ++ b) = mtotal M a + mtotal M b.
+Proof. induction a; intros; simpl. lia. rewrite IHa. lia. Qed.
+
+Lemma enum_sound : forall n i cols k a, In a (enum n i cols k) ->
+  length a = k /\ NoDup (map fst a) /\ NoDup (map snd a) /\
+  Forall (fun p => (i <= fst p < i + n)%nat /\ In (snd p) cols) a.
+Proof.
+  induction n as [|n IH]; intros i cols k a H; simpl in H.
+  - destruct k; simpl in H; [|destruct H]. destruct H as [H | []]. subst a. simpl.
+    repeat split; constructor.
+  - apply in_app_or in H. destruct H as [H | H].
+    + destruct k as [|k]. destruct H.
+      apply in_flat_map in H. destruct H as [j [Hj H]]. apply in_map_iff in H. destruct H as [b [E Hb]].
+      subst a. apply IH in Hb. destruct Hb as [L [N1 [N2 F]]]. rewrite Forall_forall in F.
+      simpl. split; [lia|]. split; [|split].
+      * constructor; auto. intros Hin. apply in_map_iff in Hin. destruct Hin as [p [E Hp]].
+        apply F in Hp. lia.
+      * constructor; auto. intros Hin. apply in_map_iff in Hin. destruct Hin as [p [E Hp]].
+        apply F in Hp. destruct Hp as [_ Hp]. rewrite E in Hp. apply remove_In in Hp. auto.
+      * constructor. simpl. split; [lia | auto].
+        apply Forall_forall. intros p Hp. apply F in Hp. destruct Hp as [Hp1 Hp2]. split. lia.
+        apply in_remove in Hp2. tauto.
+    + apply IH in H. destruct H as [L [N1 [N2 F]]]. repeat split; auto.
+      eapply Forall_impl; [|exact F]. simpl. intros p [Hp1 Hp2]. split; [lia | auto].
+Qed.
+
+Lemma enum_complete : forall n i cols k a,
+  length a = k -> NoDup (map fst a) -> NoDup (map snd a) ->
+  Forall (fun p => (i <= fst p < i + n)%nat /\ In (snd p) cols) a ->
+  exists a', In a' (enum n i cols k) /\ forall M, mtotal M a' = mtotal M a.
+Proof.
+  induction n as [|n IH]; intros i cols k a L N1 N2 F.
+  - destruct a as [|p a]. subst k. exists []. simpl. auto.
+    inversion F; subst. lia.
+  - destruct (in_dec Nat.eq_dec i (map fst a)) as [Hi | Hi].
+    + apply in_map_iff in Hi. destruct Hi as [[i' j] [E Hp]]. simpl in E. subst i'.
+      apply in_split in Hp. destruct Hp as [a1 [a2 Ea]]. subst a.
+      rewrite map_app in N1, N2. simpl in N1, N2.
+      pose proof (NoDup_remove_1 _ _ _ N1) as N1'. pose proof (NoDup_remove_2 _ _ _ N1) as N1''.
+      pose proof (NoDup_remove_1 _ _ _ N2) as N2'. pose proof (NoDup_remove_2 _ _ _ N2) as N2''.
+      rewrite <- map_app in N1', N1'', N2', N2''.
+      rewrite app_length in L. simpl in L. destruct k as [|k]; [lia|].
+      assert (Fj : In j cols).
+      { rewrite Forall_forall in F. specialize (F (i, j)). simpl in F. apply F. apply in_or_app. right; left; auto. }
+      destruct (IH (S i) (remove Nat.eq_dec j cols) k (a1 ++ a2)%list) as [b [Hb Tb]]; auto.
+      * rewrite app_length. lia.
+      * apply Forall_forall. intros p Hp. rewrite Forall_forall in F.
+        assert (Hp' : In p (a1 ++ (i, j) :: a2)).
+        { apply in_app_or in Hp. apply in_or_app. destruct Hp; auto. right; right; auto. }
+        specialize (F _ Hp'). destruct F as [F1 F2]. split.
+        -- assert (fst p <> i). { intros E. apply N1''. apply in_map_iff. exists p. auto. } lia.
+        -- apply in_in_remove; auto. intros E. apply N2''. apply in_map_iff. exists p. auto.
+      * exists ((i, j) :: b). split.
+        -- simpl. apply in_or_app. left. apply in_flat_map. exists j. split; auto. apply in_map. auto.
+        -- intros M. simpl. rewrite Tb. rewrite !mtotal_app. simpl. lia.
+    + destruct (IH (S i) cols k a) as [b [Hb Tb]]; auto.
+      * apply Forall_forall. intros p Hp. rewrite Forall_forall in F. specialize (F _ Hp).
+        destruct F as [F1 F2]. split; auto.
+        assert (fst p <> i). { intros E. apply Hi. apply in_map_iff. exists p. auto. } lia.
+      * exists b. split; auto. simpl. apply in_or_app. right. auto.
+Qed.
+
+Lemma argmin_fold : forall M r a0,
+  let res := fold_left (fun best x => if mtotal M x <? mtotal M best then x else best) r a0 in
+  (res = a0 \/ In res r) /\ mtotal M res <= mtotal M a0 /\ forall x, In x r -> mtotal M res <= mtotal M x.
+Proof.
+  induction r as [|y r IH]; intros a0; simpl.
+  - split; auto. split. lia. intros x [].
+  - destruct (Z.ltb_spec (mtotal M y) (mtotal M a0)).
+    + destruct (IH y) as [I1 [I2 I3]]. split; [|split].
+      * destruct I1; auto.
+      * lia.
+      * intros x [Hx | Hx]. subst; auto. auto.
+    + destruct (IH a0) as [I1 [I2 I3]]. split; [|split].
+      * destruct I1; auto.
+      * lia.
+      * intros x [Hx | Hx]. subst; lia. auto.
+Qed.
+
+Lemma argmin_spec : forall M l, l <> [] ->
+  In (argmin M l) l /\ forall x, In x l -> mtotal M (argmin M l) <= mtotal M x.
+Proof.
+  intros M l Hl. destruct l as [|a0 r]. congruence. unfold argmin.
+  destruct (argmin_fold M r a0) as [I1 [I2 I3]]. split.
+  - destruct I1 as [E | E]. rewrite E. left; auto. right; auto.
+  - intros x [Hx | Hx]. subst; auto. auto.
+Qed.
+
+Definition diag (k : nat) : list (nat * nat) := map (fun t => (t, t)) (seq 0 k).
+Lemma diag_assignment : forall r c, assignment r c (diag (Nat.min r c)) /\ length (diag (Nat.min r c)) = Nat.min r c.
+Proof.
+  intros r c. unfold assignment, diag. rewrite !map_map. simpl. rewrite map_id, map_length, seq_length.
+  repeat split; try apply seq_NoDup.
+  apply Forall_forall. intros p Hp. apply in_map_iff in Hp. destruct Hp as [t [E Ht]]. subst p. simpl.
+  apply in_seq in Ht. lia.
+Qed.
+
+Lemma assignment_enum : forall r c a, assignment r c a -> length a = Nat.min r c ->
+  exists a', In a' (enum r 0 (seq 0 c) (Nat.min r c)) /\ forall M, mtotal M a' = mtotal M a.
+Proof.
+  intros r c a [A1 [A2 A3]] L. apply enum_complete; auto.
+  eapply Forall_impl; [|exact A3]. simpl. intros p [P1 P2]. split. lia. apply in_seq. lia.
+Qed.
+
+(* exhaustive search meets the solver contract on every dense matrix (no float restriction) *)
+Lemma brute_solve_optimal : forall M r c, dense M r c ->
+  assignment r c (brute_solve M) /\ length (brute_solve M) = Nat.min r c /\
+  forall a', assignment r c a' -> length a' = Nat.min r c -> mtotal M (brute_solve M) <= mtotal M a'.
+Proof.
+  intros M r c [D1 D2]. unfold brute_solve.
+  destruct M as [|row M'].
+  - simpl in D1. subst r. simpl. split; [|split].
+    + repeat split; constructor.
+    + reflexivity.
+    + intros a' _ L. destruct a'; [simpl; lia | discriminate].
+  - assert (Ec : mcols (row :: M') = c) by (inversion D2; auto). rewrite Ec, D1.
+    destruct (diag_assignment r c) as [DA DL].
+    destruct (assignment_enum r c _ DA DL) as [d [Hd _]].
+    assert (Hne : enum r 0 (seq 0 c) (Nat.min r c) <> []) by (intros E; rewrite E in Hd; destruct Hd).
+    destruct (argmin_spec (row :: M') _ Hne) as [Hin Hmin].
+    apply enum_sound in Hin. destruct Hin as [L [N1 [N2 F]]].
+    split; [|split]; auto.
+    + repeat split; auto. eapply Forall_impl; [|exact F]. simpl. intros p [P1 P2]. apply in_seq in P2. lia.
+    + intros a' Ha' La'. destruct (assignment_enum r c a' Ha' La') as [b [Hb Tb]].
+      rewrite <- Tb. apply Hmin. auto.
+Qed.
+
+Theorem brute_solve_contract : optimal_full brute_solve.
+Proof. intros M r c HD _. apply brute_solve_optimal. auto. Qed.
+
+(* the executable optimum used by holds_C15 is a minimum over all full assignments, and is attained *)
+Theorem brute_opt_min : forall M r c, dense M r c ->
+  (forall a, assignment r c a -> length a = Nat.min r c -> brute_opt M <= mtotal M a) /\
+  (exists a, assignment r c a /\ length a = Nat.min r c /\ mtotal M a = brute_opt M).
+Proof.
+  intros M r c HD. destruct (brute_solve_optimal M r c HD) as [A [L O]]. split.
+  - intros a Ha La. unfold brute_opt. auto.
+  - exists (brute_solve M). auto.
+Qed.
+
+(* ================================================================== H. the executable statement holds for the model *)
+
+Lemma nodupb_true : forall l, NoDup l -> nodupb l = true.
+Proof.
+  induction l as [|x l IH]; intros H; simpl. reflexivity. inversion H; subst.
+  rewrite IH by auto. rewrite andb_true_r. apply negb_true_iff.
+  destruct (existsb (Nat.eqb x) l) eqn:E; auto. apply existsb_exists in E. destruct E as [y [Hy E]].
+  apply Nat.eqb_eq in E. subst y. contradiction.
+Qed.
+Lemma nodupb_NoDup : forall l, nodupb l = true -> NoDup l.
+Proof.
+  induction l as [|x l IH]; intros H. constructor. simpl in H. apply andb_true_iff in H. destruct H as [H1 H2].
+  constructor; auto. intros Hin. apply negb_true_iff in H1.
+  assert (existsb (Nat.eqb x) l = true) by (apply existsb_exists; exists x; split; auto; apply Nat.eqb_refl).
+  congruence.
+Qed.
+Lemma weight_eqb_eq : forall a b, weight_eqb a b = true <-> a = b.
+Proof.
+  intros [x|x|x] [y|y|y]; simpl; split; intros H; try discriminate; try congruence.
+  - apply eqb_prop in H. congruence.
+  - inversion H. apply eqb_reflx.
+  - apply Z.eqb_eq in H. congruence.
+  - inversion H. apply Z.eqb_refl.
+  - apply Z.eqb_eq in H. congruence.
+  - inversion H. apply Z.eqb_refl.
+Qed.
+Lemma validb_iff : forall W m, validb W m = true <-> valid W m.
+Proof.
+  intros W m. unfold validb, valid. rewrite !andb_true_iff. split.
+  - intros [[H1 H2] H3]. repeat split; try apply nodupb_NoDup; auto.
+    apply Forall_forall. intros p Hp. rewrite forallb_forall in H3. specialize (H3 _ Hp).
+    unfold pair_okb in H3. destruct (lookup W (fst p) (fst (snd p))); [|discriminate].
+    apply weight_eqb_eq in H3. congruence.
+  - intros [H1 [H2 H3]]. repeat split; try apply nodupb_true; auto.
+    apply forallb_forall. intros p Hp. rewrite Forall_forall in H3. specialize (H3 _ Hp).
+    unfold pair_okb. rewrite H3. apply weight_eqb_eq. reflexivity.
+Qed.
+
+(* holds_C15's property part is true of the model's own result, for every solver meeting the contract *)
+Theorem C15_holds : forall solve u W, optimal_full solve -> in_domain u W ->
+  prop_ok {| c_unit := u; c_table := W; c_solver := None; c_result := mwbm solve u W |} = true.
+Proof.
+  intros solve u W Hs Hd. pose proof Hd as Hd'. unfold in_domain, in_domainb in Hd'.
+  assert (Hrect : rectb W = true).
+  { repeat (apply andb_true_iff in Hd'; destruct Hd' as [Hd' _]). exact Hd'. }
+  assert (Hmix : mixedb W = false).
+  { repeat (apply andb_true_iff in Hd'; destruct Hd' as [Hd' ?]). apply negb_true_iff. assumption. }
+  unfold prop_ok. cbn [c_table c_result]. rewrite Hmix.
+  destruct (C15_total solve Hs u W Hd) as [m Em]. rewrite Em.
+  apply andb_true_iff. split. apply validb_iff. eapply C15_valid; eauto.
+  destruct (has_null W) eqn:Hn; auto. simpl.
+  destruct (C15_opt solve Hs u W m Hd Hn Em) as [L O].
+  apply andb_true_iff. split. apply Nat.eqb_eq. auto. apply Z.eqb_eq.
+  assert (HD : dense (fill 0 W) (nrows W) (ncols W)) by (apply fill_dense; auto).
+  destruct (brute_opt_min _ _ _ HD) as [B1 [a [Ba [Bl Bt]]]].
+  pose proof (C15_valid solve Hs u W m Hd Em) as Hv.
+  apply Z.le_antisymm.
+  - (* total m <= brute optimum: read the optimal assignment as a valid pairing *)
+    rewrite <- Bt.
+    unfold complete in Hn. pose proof (has_null_cells_false _ Hn) as HNone.
+    (* the pairing that reports the table's weights along a *)
+    destruct (report_total W false 0 a Hrect) as [m' Em'].
+    { destruct Ba as [_ [_ Ba]]. exact Ba. }
+    destruct (report_complete W 0 0 a m' HNone Em') as [L' T'].
+    rewrite <- T'. apply O; [|lia].
+    destruct Ba as [A1 [A2 A3]]. destruct (report_nodup _ _ _ _ _ Em' A1 A2) as [N1 N2].
+    destruct (report_sound _ _ _ _ _ Em') as [S _]. repeat split; auto.
+  - rewrite <- (pairs_of_total W 0 m Hv). apply B1. apply pairs_of_assignment; auto.
+    unfold pairs_of. rewrite map_length. auto.
+Qed.
+
+(* ================================================================== I. witnesses *)
+
+(* the hypotheses are satisfiable by non-trivial values: a 2x3 table with a missing pair, a complete 3x2 one *)
+Example C15_valid_ex :
+  let W := [[Some (WI 4); None; Some (WI 1)]; [Some (WI 2); Some (WI 0); Some (WI 1)]] in
+  optimal_full brute_solve /\ in_domain 1 W /\
+  mwbm brute_solve 1 W = OK [(0, (2, WI 1)); (1, (1, WI 0))]%nat.
+Proof. split. apply brute_solve_contract. split; vm_compute; reflexivity. Qed.
+
+Example C15_opt_ex :
+  let W := [[Some (WF 3); Some (WF 1)]; [Some (WF 2); Some (WF 2)]; [Some (WF 0); Some (WF 5)]] in
+  in_domain 2 W /\ complete W /\ mwbm brute_solve 2 W = OK [(0, (1, WF 1)); (2, (0, WF 0))]%nat.
+Proof. repeat split; vm_compute; reflexivity. Qed.
+
+(* ---- D14: each region excluded from in_domain really fails, with a concrete table.
+   kf_all_missing: every pair missing -> TypeError (instead of the empty pairing) *)
+Example C15_all_missing_refuted :
+  let W := [[None; None]; [None; None]] in
+  rectb W = true /\ mixedb W = false /\ kf_all_missing 1 W = true /\
+  forall solve, mwbm solve 1 W = Err TypeError.
+Proof. repeat split. Qed.
+
+(* kf_negative_with_missing: column sums 3 + -5 = -2 and 0, so the replacement value 1 is not above the weight 3 *)
+Example C15_negative_with_missing_refuted :
+  let W := [[Some (WI 3); None]; [Some (WI (-5)); None]] in
+  rectb W = true /\ mixedb W = false /\ kf_negative_with_missing 1 W = true /\
+  forall solve, mwbm solve 1 W = Err AssertionError.
+Proof. repeat split. Qed.
+
+(* kf_sentinel_overflow: the weight fits uint64, the replacement value 2^64 does not *)
+Example C15_sentinel_overflow_refuted :
+  let W := [[Some (WI (2 ^ 64 - 1)); None]] in
+  rectb W = true /\ mixedb W = false /\ kf_sentinel_overflow 1 W = true /\ kf_negative_with_missing 1 W = false /\
+  forall solve, mwbm solve 1 W = Err OverflowError.
+Proof. repeat split. Qed.
+
+(* kf_beyond_2p53: a solver that meets the contract (it is exact wherever float64 arithmetic is exact) but, like
+   scipy, rounds its input to float64 first, returns a non-minimal pairing on a complete table of weights
+   just above 2^53 *)
+Definition round53 (x : Z) : Z :=
+  if Z.abs x <=? 2 ^ 53 then x
+  else let k := Z.log2 (Z.abs x) - 52 in
+       let q := x / 2 ^ k in
+       let r := x mod 2 ^ k in
+       let half := 2 ^ (k - 1) in
+       if r <? half then q * 2 ^ k
+       else if half <? r then (q + 1) * 2 ^ k
+       else if Z.even q then q * 2 ^ k else (q + 1) * 2 ^ k.
+Definition solve_rounded (M : matrix) : list (nat * nat) := brute_solve (map (map round53) M).
+
+Lemma solve_rounded_contract : optimal_full solve_rounded.
+Proof.
+  intros M r c HD HS. unfold solve_rounded.
+  replace (map (map round53) M) with M. apply brute_solve_optimal; auto.
+  rewrite <- (map_id M) at 1. apply map_ext_in. intros row Hr.
+  rewrite <- (map_id row) at 1. apply map_ext_in. intros x Hx.
+  unfold round53. pose proof (msum_abs_in _ _ _ Hr Hx). unfold float_safe in HS.
+  pose proof (msum_abs_nonneg M).
+  destruct (Z.leb_spec (Z.abs x) (2 ^ 53)); auto. lia.
+Qed.
+
+Example C15_beyond_2p53_refuted :
+  let W := [[Some (WI (2 ^ 53 + 1)); Some (WI (2 ^ 53))]; [Some (WI (2 ^ 53)); Some (WI (2 ^ 53))]] in
+  optimal_full solve_rounded /\ rectb W = true /\ mixedb W = false /\ complete W /\
+  kf_beyond_2p53 1 W = true /\ kf_sentinel_overflow 1 W = false /\
+  exists m m', mwbm solve_rounded 1 W = OK m /\ valid W m' /\ length m' = length m /\ total m' < total m.
+Proof.
+  split. apply solve_rounded_contract. repeat split.
+  exists [(0, (0, WI (2 ^ 53 + 1))); (1, (1, WI (2 ^ 53)))]%nat, [(0, (1, WI (2 ^ 53))); (1, (0, WI (2 ^ 53)))]%nat.
+  split. vm_compute. reflexivity. split. apply validb_iff. vm_compute. reflexivity.
+  split. reflexivity. vm_compute. reflexivity.
+Qed.
+
+(* the classes are exactly the complement of the domain among rectangular single-type tables *)
+Lemma in_domain_or_known : forall u W, rectb W = true -> mixedb W = false ->
+  in_domainb u W = true \/ kf_all_missing u W = true \/ kf_negative_with_missing u W = true \/
+  kf_sentinel_overflow u W = true \/ kf_beyond_2p53 u W = true.
+Proof.
+  intros u W H1 H2. unfold in_domainb. rewrite H1, H2. simpl.
+  destruct (kf_all_missing u W); auto. destruct (kf_negative_with_missing u W); auto.
+  destruct (kf_sentinel_overflow u W); auto. destruct (kf_beyond_2p53 u W); auto.
+Qed.
